@@ -346,6 +346,19 @@ class Interp:
                     if isinstance(iv, StructVal):
                         self.store_struct(obj, iv)
                     env[d["d"]] = U
+                if self.heap is not None and not rsz:
+                    # a local array (plain or `static const` lookup table): an object of its own, filled from its initialiser
+                    tarr = clean_type(d.get("t") or "")
+                    m_arr = re.match(r"^(.*?)\[(\d+)\](.*)$", tarr)
+                    if m_arr and (init is None or init.strip().k == "InitListExpr"):
+                        asz = self.sizeof(tarr)
+                        esz_ = self.sizeof((m_arr.group(1) + m_arr.group(3)).strip())
+                        if asz and esz_ and asz <= 65536:
+                            obj = self.new_object(d["n"], esz_)
+                            env[("obj", d["d"])] = obj
+                            if init is not None:
+                                self._fill(obj.base, 0, tarr, init.strip(), fn)
+                            env[d["d"]] = U
                 if d["d"] in self.forced and fn is self.fn:
                     env[d["d"]] = self.forced[d["d"]]
         elif k == "IfStmt":
@@ -799,6 +812,9 @@ class Interp:
                 if isinstance(v, StructVal):
                     return v            # a compound literal used as a value
                 return self.load(e.c[0], v, env, fn, depth)
+            if ck == "ArrayToPointerDecay" and e.c[0].strip().k == "DeclRefExpr" and ("obj", e.c[0].strip().get("d")) in env:
+                o_ = env[("obj", e.c[0].strip().get("d"))]
+                return Ptr(o_.base, o_.off, pointee_size(e.t) or o_.esz or 1)
             if ck == "ArrayToPointerDecay" and e.c[0].strip().k in ("MemberExpr", "ArraySubscriptExpr"):
                 p_, _sz = self.addr(e.c[0].strip(), env, fn, depth)
                 if p_ is not None:
@@ -1192,8 +1208,13 @@ class Interp:
                 # memcpy(p, &scalar, n): the scalar's bytes in memory order (little-endian target)
                 src_env = args[1][3] if len(args[1]) > 3 else env
                 v = src_env.get(args[1][1], U)
-                for i in range(n):
-                    self.heap[(args[0].base, args[0].off + i)] = ((v >> (8 * i)) & 0xFF) if isinstance(v, int) else U
+                if isinstance(v, Sym) and v.bits == 8 * n:
+                    for i in range(1, n):
+                        self.heap.pop((args[0].base, args[0].off + i), None)
+                    self.heap[(args[0].base, args[0].off)] = v         # an opaque term the size of the copy: kept whole
+                else:
+                    for i in range(n):
+                        self.heap[(args[0].base, args[0].off + i)] = ((v >> (8 * i)) & 0xFF) if isinstance(v, int) else U
             return args[0]
         if name in ("memset", "__builtin_memset", "__memset_chk"):
             self.access(args[0], args[2] if len(args) > 2 else U, "w", e)
